@@ -92,9 +92,15 @@ def symmetric_pairs(fn):
 
 
 def check(ctx):
-    P = ctx.P
     G.keep_first_or_error(ctx, "C03.1")
-    fn = q.anchor_fn(ctx, "C03.2", "shape comparator (fn with a match on (&TypeDef, &TypeDef))",
+    comparator(ctx, None)
+    grouping(ctx)
+
+
+def comparator(ctx, rid_override):
+    P = ctx.P
+    R2 = rid_override or "C03.2"
+    fn = q.anchor_fn(ctx, R2, "shape comparator (fn with a match on (&TypeDef, &TypeDef))",
                      [b for b, ms in q.fns_with_match_on(P, lambda t: t.startswith("(&scale_info::TypeDef<") or t.startswith("(scale_info::TypeDef<"), GEN)])
     if fn is None:
         return
@@ -123,17 +129,34 @@ def check(ctx):
     for adt in ("Field", "Variant", "TypeDefVariant", "TypeDefComposite", "TypeDefArray", "TypeDefSequence", "TypeDefCompact", "TypeDefTuple", "TypeDefBitSequence"):
         a = q.adt_by_name(P, adt, "scale_info")
         if a is None:
-            ctx.bad("C03.2", "missing-anchor/adt/" + adt, "", "scale-info ADT %s not found in the facts" % adt)
+            ctx.bad(R2, "missing-anchor/adt/" + adt, "", "scale-info ADT %s not found in the facts" % adt)
             continue
         for f in a["variants"][0]["fields"]:
             if (adt, f["name"]) in EXCLUDED:
                 continue
             if (adt, f["name"]) not in REQUIRED:
-                ctx.bad("C03.2", "comparator-coverage/%s.%s" % (adt, f["name"]), a["sp"], "scale-info's %s has a field `%s` that the reviewed requirement list does not know" % (adt, f["name"]))
+                ctx.bad(R2, "comparator-coverage/%s.%s" % (adt, f["name"]), a["sp"], "scale-info's %s has a field `%s` that the reviewed requirement list does not know" % (adt, f["name"]))
     for adt, f in REQUIRED:
-        ctx.expect((adt, f) in covered, "C03.2", "comparator-coverage/%s.%s" % (adt, f), fn["sp"],
+        ctx.expect((adt, f) in covered, R2, "comparator-coverage/%s.%s" % (adt, f), fn["sp"],
                    "`%s.%s` is read on both operands in a symmetric position" % (adt, f),
                    "the shape comparator never compares `%s.%s` of the two types: two definitions that differ only there are judged equal and share one generated item" % (adt, f))
+    # zipped collections must be guarded by an EQUALITY comparison of their lengths (zip silently truncates)
+    zips = [n for n in walk(fn["body"]) if n.get("k") == "MethodCall" and cshort(n.get("callee", "")) == "Iterator::zip" and n["args"]]
+    lens = []
+    for n in walk(fn["body"]):
+        if n.get("k") == "Binary" and n["op"] in ("==", "!=", "<", ">", "<=", ">="):
+            l, r = strip(n["l"]), strip(n["r"])
+            if l.get("k") == "MethodCall" and r.get("k") == "MethodCall" and l["name"] == "len" and r["name"] == "len":
+                lens.append((show(N.term(l["recv"])), show(N.term(r["recv"])), n["op"], n))
+    ctx.count("zipped collection pairs in the comparator", len(zips), 3)
+    for z in zips:
+        a, b = show(N.term(z["recv"])), show(N.term(z["args"][0]))
+        ops = [op for x, y, op, _n in lens if {x, y} == {a, b}]
+        key = "comparator-length/" + (a.split("@")[-1].split(".")[-1] if "@" in a or "." in a else a)[:40]
+        ctx.expect(bool(ops) and all(op in ("==", "!=") for op in ops), R2, key, site(z),
+                   "the two zipped lists are compared for equal length (%s)" % ops,
+                   "the comparator zips `%s` with `%s` but compares their lengths with %s: a list that is a strict prefix of the other is judged equal "
+                   "(zip truncates), and the judgement becomes asymmetric" % (a[-60:], b[-60:], ops or "nothing"))
     # off-diagonal and primitive arms
     ms = q.matches_on(fn["body"], lambda t: t.startswith("(&scale_info::TypeDef<"))
     if len(ms) == 1:
@@ -149,20 +172,19 @@ def check(ctx):
                 if pr.replace("$", "").replace("_", "") == "(TypeDef::%s(),TypeDef::%s())" % (v, v):
                     diag[v] = arm
         for v in variants:
-            ctx.expect(v in diag, "C03.2", "comparator-arm/" + v, site(m), "diagonal arm (%s, %s) present" % (v, v), "no arm comparing two %s definitions" % v)
-        ctx.expect(wild is not None and show(N.term(wild["body"])) == "false", "C03.2", "comparator-arm/off-diagonal", site(m),
+            ctx.expect(v in diag, R2, "comparator-arm/" + v, site(m), "diagonal arm (%s, %s) present" % (v, v), "no arm comparing two %s definitions" % v)
+        ctx.expect(wild is not None and show(N.term(wild["body"])) == "false", R2, "comparator-arm/off-diagonal", site(m),
                    "different TypeDef kinds are never equal", "off-diagonal arm is `%s`" % (show(N.term(wild["body"])) if wild else "missing"))
         if "Primitive" in diag:
             arm = diag["Primitive"]
             t = show(N.term(arm["body"], q.arm_syms(arm["pat"])))
-            ctx.expect(t in ("(A_00==A_10)", "(A_10==A_00)"), "C03.2", "comparator-arm/Primitive-eq", site(arm), "primitives are compared for equality", "primitive arm is `%s`" % t)
+            ctx.expect(t in ("(A_00==A_10)", "(A_10==A_00)"), R2, "comparator-arm/Primitive-eq", site(arm), "primitives are compared for equality", "primitive arm is `%s`" % t)
     else:
-        ctx.bad("C03.2", "missing-anchor/typedef-pair-match", fn["sp"], "expected one match on (&TypeDef, &TypeDef), found %d" % len(ms))
-    grounds(ctx, fn, N)
-    grouping(ctx)
+        ctx.bad(R2, "missing-anchor/typedef-pair-match", fn["sp"], "expected one match on (&TypeDef, &TypeDef), found %d" % len(ms))
+    grounds(ctx, fn, N, rid_override or "C03.3")
 
 
-def grounds(ctx, fn, N):
+def grounds(ctx, fn, N, R3="C03.3"):
     """K17: every way of answering `true`"""
     sites = []
     for n, parents in walk_with_parents(fn["body"]):
@@ -179,7 +201,7 @@ def grounds(ctx, fn, N):
     gls = [i for i, t in enumerate(fn["inputs"]) if t.endswith("GenericsList")]
     vis = [i for i, t in enumerate(fn["inputs"]) if "HashSet<" in t]
     if len(ids) != 2 or len(gls) != 2:
-        ctx.bad("C03.3", "missing-anchor/comparator-signature", fn["sp"], "comparator signature changed: %s" % fn["inputs"])
+        ctx.bad(R3, "missing-anchor/comparator-signature", fn["sp"], "comparator signature changed: %s" % fn["inputs"])
         return
     ia, ib = ids
     ga, gb = gls
@@ -190,21 +212,21 @@ def grounds(ctx, fn, N):
         last = cs[-1] if cs else ""
         joined = " && ".join(cs)
         if last.replace(" ", "") in ("(%s==%s)" % (A, B), "(%s==%s)" % (B, A)):
-            ctx.ok("C03.3", "ground/id-identity", site(n), "true because both ids are the same id")
+            ctx.ok(R3, "ground/id-identity", site(n), "true because both ids are the same id")
         elif "index_for_type_id(P%d,%s)@v1::Some.0==GenericsList::index_for_type_id(P%d,%s)@v1::Some.0" % (ga, A, gb, B) in last:
-            ctx.ok("C03.3", "ground/same-generic-index", site(n), "true because both ids are explained by the same generic-parameter index")
+            ctx.ok(R3, "ground/same-generic-index", site(n), "true because both ids are explained by the same generic-parameter index")
         elif len(vis) == 1 and "HashSet<(u32, u32)" in fn["inputs"][vis[0]] and last == "!HashSet::insert(P%d,(%s,%s))" % (vis[0], A, B):
-            ctx.ok("C03.3", "ground/pair-memo", site(n), "true because this very pair (a, b) is already being compared further up (memo hit on the pair)")
+            ctx.ok(R3, "ground/pair-memo", site(n), "true because this very pair (a, b) is already being compared further up (memo hit on the pair)")
         elif sum(1 for c in cs[-2:] if c.startswith("!HashSet::insert(") or c.startswith("HashSet::contains(")) == 2:
-            ctx.bad("C03.3", "ground/unpaired-visited-sets", site(n),
+            ctx.bad(R3, "ground/unpaired-visited-sets", site(n),
                     "answers `equal` when id a was seen before on the left AND id b was seen before on the right - on two independent visited sets, not on the pair (a,b): "
                     "X{a:P,b:Q,c:P} vs X'{a:P',b:Q',c:Q'} are judged equal (condition: %s)" % " && ".join(cs[-2:]))
         else:
-            ctx.bad("C03.3", "ground/unreviewed/" + last[:120], site(n), "new shortcut to `equal` under the condition `%s`" % joined[-300:])
+            ctx.bad(R3, "ground/unreviewed/" + last[:120], site(n), "new shortcut to `equal` under the condition `%s`" % joined[-300:])
     # the type-name ground inside compare_fields
     t = show(N.term(fn["body"]), 10 ** 6)
     tn = "Option::is_some_and(Option::zip(GenericsList::index_for_type_name(C1_1,C1_0.type_name@v1::Some.0),GenericsList::index_for_type_name(C1_3,C1_2.type_name@v1::Some.0)),|1|{(C2_0.0==C2_0.1)})"
-    ctx.expect(tn in t, "C03.3", "ground/same-generic-name-index", fn["sp"], "field types named by a generic parameter are equal iff both names resolve to the same parameter index",
+    ctx.expect(tn in t, R3, "ground/same-generic-name-index", fn["sp"], "field types named by a generic parameter are equal iff both names resolve to the same parameter index",
                "the type-name ground of compare_fields changed")
 
 
